@@ -225,13 +225,18 @@ fn exec(op: &Op, zones: &[TimeZone], times: &[i64]) -> u64 {
         Op::RealFs { k } => {
             static D: OnceLock<Vec<&'static str>> = OnceLock::new();
             let dirs = D.get_or_init(|| vec!["/", "//", Box::leak(format!("{}/", vdir(0)).into_boxed_str())]);
-            let settings = TimeZoneSettings::new(dirs, TimeZoneSettings::DEFAULT_READ_FILE_FN);
+            // every other time with an EMPTY directory list: a relative name then has no candidate path at all
+            let none: &[&str] = &[];
+            let settings = TimeZoneSettings::new(if (*k / 3) % 2 == 0 { dirs } else { none }, TimeZoneSettings::DEFAULT_READ_FILE_FN);
             h(settings.parse_posix_tz(["verif-c15-rel/Zone", ":verif-c15-rel/Zone", "verif-c15-rel/../verif-c15-rel/Zone"][*k as usize % 3]).map_err(|e| format!("{e:?}")))
         }
-        Op::Ambient { k } => match k % 3 {
+        Op::Ambient { k } => match k % 5 {
             0 => h(TimeZone::local().map_err(|e| format!("{e:?}"))),
             1 => h(TimeZone::from_posix_tz("UTC0").map_err(|e| format!("{e:?}"))),
-            _ => h(TimeZone::from_posix_tz("EST5EDT,M3.2.0,M11.1.0").map_err(|e| format!("{e:?}"))),
+            2 => h(TimeZone::from_posix_tz("EST5EDT,M3.2.0,M11.1.0").map_err(|e| format!("{e:?}"))),
+            // names that exist only under the directory the child process's TZDIR points to (default settings must not look there)
+            3 => h(TimeZone::from_posix_tz("Zone/A").map_err(|e| format!("{e:?}"))),
+            _ => h(TimeZone::from_posix_tz(":Zone/B").map_err(|e| format!("{e:?}"))),
         },
     }
 }
@@ -378,7 +383,7 @@ pub fn ambient_compare(progs: &[Program]) -> Result<u64, Failure> {
         .env("VERIF_C15_CHILD", &path)
         .env("VERIF_C15_MAKE_REAL", "1")
         .env("TZ", "<+11>-11")
-        .env("TZDIR", "/nonexistent/zoneinfo")
+        .env("TZDIR", vdir(0))
         .env("LANG", "tr_TR.UTF-8")
         .env("LC_ALL", "tr_TR.UTF-8")
         .current_dir(&cwd)
